@@ -53,10 +53,13 @@ pub struct Layout {
     /// version 3 only: the upper 4 bytes of every allocated entry's 8-byte stream size hold junk (MS-CFB 2.6.3: old writers
     /// leave them uninitialised, readers must ignore them when sectors are 512 bytes)
     pub size_hi_garbage: bool,
+    /// a mini FAT sector (all entries free) is allocated although no stream lives in the mini stream (what remains after
+    /// every small stream was deleted): the root entry has no mini stream then
+    pub empty_minifat_sector: bool,
 }
 impl Default for Layout {
     fn default() -> Self {
-        Layout { v4: false, order: Order::Sequential, mini_order: Order::Sequential, unused_dir_entries: 0, dir_reversed: false, free_sectors: 0, extra_fat_sectors: 0, free_mini_sectors: 0, name_garbage: false, size_hi_garbage: false }
+        Layout { v4: false, order: Order::Sequential, mini_order: Order::Sequential, unused_dir_entries: 0, dir_reversed: false, free_sectors: 0, extra_fat_sectors: 0, free_mini_sectors: 0, name_garbage: false, size_hi_garbage: false, empty_minifat_sector: false }
     }
 }
 
@@ -148,6 +151,7 @@ pub fn write(entries: &[Entry], lay: &Layout) -> Vec<u8> {
     }
     let mut minifat_bytes: Vec<u8> = minifat.iter().flat_map(|x| x.to_le_bytes()).collect();
     while minifat_bytes.len() % ss != 0 { minifat_bytes.extend_from_slice(&FREESECT.to_le_bytes()); }
+    if lay.empty_minifat_sector && minifat_bytes.is_empty() { for _ in 0..ss / 4 { minifat_bytes.extend_from_slice(&FREESECT.to_le_bytes()); } }
     // --- directory ---------------------------------------------------------------------------
     // physical entry order: root, then entries (maybe reversed) with unused entries sprinkled in
     let mut order: Vec<Option<usize>> = (0..entries.len()).map(Some).collect();
